@@ -636,6 +636,9 @@ def _fs_scenario():
             out.append((name, "ok", v))
         except OSError as e:
             out.append((name, type(e).__name__, errno.errorcode.get(e.errno)))
+        except (ValueError, TypeError) as e:
+            # what CPython's own layers raise for misuse (closed file, bad mode, wrong direction)
+            out.append((name, type(e).__name__, None))
 
     def w(path, mode, text):
         with open(path, mode) as f:
@@ -694,6 +697,202 @@ def _fs_scenario():
     rec("chdir_file", lambda: os.chdir("a.bitproto"))
     rec("chdir_missing", lambda: os.chdir("nope"))
     rec("utime", lambda: (os.utime("a.bitproto", (5, 5)), int(os.path.getmtime("a.bitproto")))[1])
+
+    # ---- file-object idioms (the layers above the raw file are CPython's own; these steps pin
+    # the raw layer, open-mode handling and descriptor functions to the real kernel's behaviour)
+    import io
+    import shutil
+
+    def textio():
+        w("out/t1", "w", "hello\nworld\ncaf\u00e9\n")
+        with open("out/t1") as f:
+            a = f.readline()
+            f.seek(0)
+            b = f.tell()
+            c = f.read()
+            d = f.newlines
+            e = type(f.buffer).__name__, type(f.buffer.raw).__name__ != "", f.mode, f.name, f.readable(), f.writable(), f.seekable(), f.isatty()
+        with open("out/t1") as f:
+            g = next(f), [x for x in f]
+        return a, b, c, d, e, g
+
+    rec("text_seek_tell_iter", textio)
+
+    def binio():
+        with open("out/t1", "rb") as f:
+            buf = bytearray(4)
+            n = f.readinto(buf)
+            p = f.peek(2)[:2]
+            r1 = f.read1(3)
+            f.seek(-3, 2)
+            tail = f.read()
+            pos = f.tell()
+        return n, bytes(buf), p, r1, tail, pos
+
+    rec("binary_readinto_peek", binio)
+
+    def update_modes():
+        with open("out/u1", "w+") as f:
+            f.write("abcdef\n")
+            f.seek(0)
+            a = f.read()
+        with open("out/u1", "r+") as f:
+            f.seek(2)
+            f.write("XY")
+            f.seek(0)
+            b = f.read()
+        with open("out/u1", "a+") as f:
+            f.write("tail\n")
+            f.seek(0)
+            c = f.read()
+        with open("out/u1", "r+b") as f:
+            f.truncate(3)
+            f.seek(0, 2)
+            d = f.tell()
+        os.truncate("out/u1", 5)
+        with open("out/u1", "rb") as f:
+            e = f.read()
+        return a, b, c, d, e
+
+    rec("update_modes_truncate", update_modes)
+    rec("r_plus_missing", lambda: open("out/none_rplus", "r+"))
+    rec("write_to_reader", lambda: open("out/t1").write("x"))
+    rec("read_from_writer", lambda: open("out/w_only", "w").read())
+
+    def closed_ops():
+        f = open("out/t1")
+        f.close()
+        f.close()
+        return f.closed, f.read()
+
+    rec("read_after_close", closed_ops)
+    rec("bad_mode", lambda: open("out/t1", "rw"))
+    rec("bad_mode2", lambda: open("out/t1", "rbt"))
+    rec("binary_with_encoding", lambda: open("out/t1", "rb", encoding="utf-8"))
+    rec("unbuffered_text", lambda: open("out/t1", "r", buffering=0))
+
+    def newlines_enc():
+        with open("out/nl", "wb") as f:
+            f.write(b"a\r\nb\rc\n\xff\n")
+        with open("out/nl", newline="", encoding="latin-1") as f:
+            a = f.read()
+        with open("out/nl", encoding="utf-8", errors="replace") as f:
+            b = f.read()
+        with open("out/nl2", "w", newline="\r\n") as f:
+            f.write("x\ny\n")
+        with open("out/nl2", "rb") as f:
+            c = f.read()
+        return a, b, c
+
+    rec("newline_and_encoding", newlines_enc)
+    rec("strict_decode_error", lambda: open("out/nl", encoding="utf-8").read())
+
+    def buffering():
+        f = open("out/buf", "w")
+        f.write("x" * 10)
+        a = os.path.getsize("out/buf")  # still in the userspace buffer
+        f.flush()
+        b = os.path.getsize("out/buf")
+        f.write("y" * 100000)  # larger than every buffer: written through
+        c = os.path.getsize("out/buf") >= 100000
+        f.close()
+        d = os.path.getsize("out/buf")
+        with open("out/buf0", "wb", buffering=0) as g:
+            n = g.write(b"abc")
+            e = os.fstat(g.fileno()).st_size
+        return a, b, c, d, n, e
+
+    rec("buffering_visibility", buffering)
+
+    def lowlevel2():
+        fd = os.open("out/ll", os.O_RDWR | os.O_CREAT, 0o644)
+        os.write(fd, b"0123456789")
+        os.lseek(fd, 2, 0)
+        a = os.read(fd, 3)
+        os.ftruncate(fd, 4)
+        os.lseek(fd, 0, 0)
+        b = os.read(fd, 100)
+        st = os.fstat(fd).st_size
+        os.close(fd)
+        fd = os.open("out/ll", os.O_WRONLY | os.O_APPEND)
+        os.write(fd, b"zz")
+        os.close(fd)
+        with open("out/ll", "rb") as f:
+            c = f.read()
+        return a, b, st, c
+
+    rec("os_rdwr_lseek_ftruncate_append", lowlevel2)
+    rec("os_close_twice", lambda: (lambda fd: (os.close(fd), os.close(fd)))(os.open("out/ll", os.O_RDONLY)))
+    rec("os_open_dir_wronly", lambda: os.open("out", os.O_WRONLY))
+
+    def dirfd():
+        fd = os.open("out", os.O_RDONLY)
+        try:
+            a = os.stat("ll", dir_fd=fd).st_size
+            b = sorted(e.name for e in os.scandir(fd))[:3]
+            w("out/dfd_victim", "w", "v")
+            os.unlink("dfd_victim", dir_fd=fd)
+            c = os.path.exists("out/dfd_victim")
+            os.mkdir("dfd_dir", dir_fd=fd)
+            os.rmdir("dfd_dir", dir_fd=fd)
+            d = os.path.exists("out/dfd_dir")
+        finally:
+            os.close(fd)
+        return a, len(b), c, d
+
+    rec("dir_fd_calls", dirfd)
+
+    def shutils():
+        os.makedirs("out/tree/a/b")
+        w("out/tree/a/b/f1", "w", "1")
+        w("out/tree/a/f2", "w", "22")
+        shutil.copyfile("out/tree/a/f2", "out/tree/copy")
+        shutil.copy2("out/tree/a/f2", "out/tree/copy2")
+        shutil.copytree("out/tree/a", "out/tree2")
+        shutil.move("out/tree/copy", "out/tree/moved")
+        walked = sorted((d.replace(os.sep, "/"), sorted(ds), sorted(fs_)) for d, ds, fs_ in os.walk("out/tree"))
+        a = open("out/tree2/b/f1").read(), open("out/tree/moved").read(), open("out/tree/copy2").read()
+        shutil.rmtree("out/tree")
+        shutil.rmtree("out/tree2")
+        return a, walked, os.path.exists("out/tree"), os.path.exists("out/tree2")
+
+    rec("shutil_copy_move_walk_rmtree", shutils)
+    rec("rmtree_missing", lambda: shutil.rmtree("out/no_such_tree"))
+
+    def temps():
+        with tempfile.TemporaryDirectory(dir="out") as td:
+            w(os.path.join(td, "z"), "w", "z")
+            os.mkdir(os.path.join(td, "sub"))
+            a = sorted(os.listdir(td))
+        b = os.path.exists(td)
+        with tempfile.NamedTemporaryFile("w+", dir="out", suffix=".nt") as f:
+            f.write("named")
+            f.flush()
+            c = open(f.name).read()
+            nm = f.name
+        d = os.path.exists(nm)
+        return a, b, c, d
+
+    rec("tempfile_dir_and_named", temps)
+    rec("replace_file_onto_nonempty_dir", lambda: (os.makedirs("out/ned/x", exist_ok=True), os.replace("a.bitproto", "out/ned"))[1])
+    rec("replace_dir_onto_file", lambda: os.replace("sub", "out/ll"))
+    rec("link_existing", lambda: os.link("a.bitproto", "out/ll"))
+    rec("symlink_existing", lambda: os.symlink("a.bitproto", "out/ll"))
+    rec("readlink_nonlink", lambda: os.readlink("a.bitproto"))
+    rec("open_dir_read", lambda: open("out"))
+    rec("open_dir_write", lambda: open("out", "w"))
+    rec("open_trailing_slash_write", lambda: open("out/newfile/", "w"))
+    rec("open_under_file", lambda: open("a.bitproto/x"))
+    rec("open_under_file_w", lambda: open("a.bitproto/x", "w"))
+    rec("open_missing_parent_w", lambda: open("nodir/x", "w"))
+    rec("open_dangling_w", lambda: (w("dangling", "w", "dd"), open("nowhere").read())[1])
+    rec("open_symlink_loop", lambda: (os.symlink("loop2", "loop1"), os.symlink("loop1", "loop2"), open("loop1"))[2])
+    rec("stat_mode_bits", lambda: (oct(os.stat("a.bitproto").st_mode & 0o170000), oct(os.stat("out").st_mode & 0o170000), oct(os.lstat("a_link").st_mode & 0o170000)))
+    rec("chmod_then_stat", lambda: (os.chmod("out/ll", 0o600), oct(os.stat("out/ll").st_mode & 0o777))[1])
+    rec("samefile", lambda: (os.path.samefile("a.bitproto", "a_link"), os.path.samefile("a.bitproto", "a_hard"), os.path.samefile("a.bitproto", "out/ll")))
+    rec("samefile_missing", lambda: os.path.samefile("a.bitproto", "nope"))
+    rec("access", lambda: (os.access("a.bitproto", os.R_OK), os.access("nope", os.F_OK)))
+    rec("getcwd_tail", lambda: os.getcwd().endswith("/p"))
     return out
 
 
